@@ -274,6 +274,7 @@ def classes(case):
     if _special_meta(case): out.append('metadata:special-chars')
     if any(g.get('rawcomments') for g in case['graphs']): out.append('raw-comment-lines')
     if any(g['tree'][0] is None for g in case['graphs']): out.append('empty-graph-in-stream')
+    if any(g.get('cross') for g in case['graphs']): out.append('constant-spelled-like-variable-of-earlier-graph')
     if case.get('gap') and any(g.get('meta') or g.get('rawcomments') for g in case['graphs']): out.append('blank-line-inside-or-after-comment-block')
     if case.get('enc'): out.append('file-encoding:' + case['enc'])
     if any(v == '' for g in case['graphs'] for v in (g.get('meta') or {}).values()): out.append('metadata:empty-value')
@@ -296,6 +297,20 @@ def _cases(draw):
         if draw(st.integers(0, 11)) == 0:
             g = {'tree': [None, []], 'meta': draw(trees.metadata())}
         gs.append(g)
+    if len(gs) >= 2 and draw(st.integers(0, 2)) == 0:
+        # a later graph has an attribute with an inverted role whose constant is spelled like a node variable of an EARLIER
+        # graph of the stream (each graph is read on its own: it stays an attribute there)
+        j2 = draw(st.integers(1, len(gs) - 1))
+        i2 = draw(st.integers(0, j2 - 1))
+        if gs[i2]['tree'][0] is not None and gs[j2]['tree'][0] is not None:
+            earlier = interp.node_vars(interp.to_node(gs[i2]['tree']))
+            mine = set(interp.node_vars(interp.to_node(gs[j2]['tree'])))
+            cand = [v for v in earlier if v not in mine]
+            if cand:
+                br = [draw(st.sampled_from([':ARG0-of', ':mod-of', ':quant-of'])), cand[draw(st.integers(0, len(cand) - 1))]]
+                if br not in gs[j2]['tree'][1]:
+                    gs[j2]['tree'][1].append(br)
+                    gs[j2]['cross'] = True
     return {'graphs': gs, 'model': spec, 'term': draw(st.sampled_from(['LF', 'CRLF', 'CR'])),
             'sep': draw(st.sampled_from(['blank', 'newline', 'space', 'none'])),
             'indent': draw(st.sampled_from([-1, None, 0, 2, 5])), 'compact': draw(st.booleans()),
